@@ -505,7 +505,7 @@ func init() {
 		ID:    "C19",
 		Level: "exploration",
 		Rule: "all quadruples of distinct, mutually non-prefixing delimiter strings of length 1-2 over {< > [ ]} (quick) / {< > [ ] $ \\} (thorough), x 8 (quick) / 20 templates re-spelled with them (object, hyphenated object, if/else with hyphens on clause tags, loop, raw holding default-delimiter text, comment, default delimiters as plain text, failing third line, unterminated block, ...); " +
-			"length-3/4 quadruples on one pattern per pair of shorter strings (not exhaustive); 16 subsets of empty positions for 6 (quick) / 40 quadruples; oracle = output / error line / error cause of the default spelling on a default engine; " +
+			"length-3/4 quadruples on one pattern per pair of shorter strings (not exhaustive); 16 subsets of empty positions for 6 (quick) / 40 quadruples; 10 quadruples beyond ASCII and 10 of punctuation with a meaning elsewhere (hyphens, regexp metacharacters, backslashes, the default delimiters in swapped roles) x all templates + opaque bodies; oracle = output / error line / error cause of the default spelling on a default engine; " +
 			"class = (template, delimiter lengths, outcome kind); distinct_nontrivial counts distinct classes",
 		Assumptions: []string{
 			"templates contain no character of the delimiter alphabet outside delimiters",
